@@ -163,6 +163,22 @@ class NoPanic:
                 self.field_invariants[(adt, field)] = n
             ctx.extra.setdefault("container_invariants", {})["%s.%s" % (adt, field)] = "len >= %d: %s" % (n, why)
 
+    def field_max_invariants(self):
+        """Upper bounds on private container fields that follow from checked structural facts: an RtMessage holds at most one entry per Tag
+        variant because tags are strictly ascending (requirement rtmessage_tags_bounded, i.e. the C05 ascending-enforced rules)."""
+        if getattr(self, "_fmax", None) is None:
+            self._fmax = {}
+            if self.req_check:
+                ok, why = self.req_check("rtmessage_tags_bounded")
+                if ok:
+                    n = len(self.P.adts[TAG]["variants"]) if TAG in self.P.adts else None
+                    if n:
+                        self._fmax[("roughenough::message::RtMessage", "tags")] = n
+                        self._fmax[("roughenough::message::RtMessage", "values")] = n
+            self.ctx.extra.setdefault("container_invariants", {})["roughenough::message::RtMessage.tags/values"] = \
+                "len <= %s (strictly ascending tags over the Tag enum)" % (self._fmax.get(("roughenough::message::RtMessage", "tags")),)
+        return self._fmax
+
     def closure_param_axioms(self, fn):
         """A closure handed to an iterator adaptor over `slice.chunks_exact(n)` receives slices of exactly n elements (`chunks(n)`:
         between 1 and n): length facts about the closure's item parameter."""
@@ -213,6 +229,7 @@ class NoPanic:
             ev = self.W.ev(p)
             B = Bounds(self.W, fn, ev, pre=pre)
             B.field_min_len = self.field_invariants
+            B.field_max_len = self.field_max_invariants()
             B.axioms.extend(self.closure_param_axioms(fn))
             self.bounds[p] = B
             self.pre[p] = pre
@@ -679,12 +696,7 @@ class NoPanic:
         return
 
     def panic_desc(self, fn, b, args):
-        # message text if constant
-        for a in args:
-            for s in values.subterms(a):
-                if isinstance(s, tuple) and s and s[0] == "str":
-                    return repr(s[1][:40])
-        # macro name
+        # the macro that expands to this panic (assert, assert_eq, unreachable, panic, ...): rewording the message must not rename the site
         t = fn.blocks[b].term
         return t.get("mac", "panic")
 
